@@ -364,6 +364,15 @@ func (w *world) checkConsumersQuiescent() {
 				c.Fail("C10.Q.cancelled-consumer-blocked", "consumer %d (kind %d) is blocked at a quiescent point although its context was cancelled", x.id, x.kind)
 				return
 			}
+			// Wait / Resolve / ResolveWithReleased: not blocked while the RefCount (which has a
+			// context, and the consumer's own reference) holds a current result, value or error
+			if x.kind <= 2 && w.active == 0 && w.ctxTag != 0 && len(w.calls) > 0 {
+				last := w.calls[len(w.calls)-1]
+				if last.returned != 0 && !w.invalidated(last, c.Tick()) && (last.err != nil || (last.hasRel && last.rel == 0)) {
+					c.Fail("C10.W6.wait-blocked-with-result", "consumer %d (kind %d) is blocked at a quiescent point although the latest resolver call %d has returned its result (err=%v), which is current", x.id, x.kind, last.n, last.err)
+					return
+				}
+			}
 			continue
 		}
 		// Access
